@@ -91,6 +91,11 @@ CHECKS = {
             "Templates compiled at check time (layout with children, once handle used twice, CSS class, script template in a loop, long text) are rendered by 2-3 goroutines x 1-2 renders into per-goroutine writers that yield on every Write (DefaultBufferSize 32 so renders flush often), one scenario with a writer failing midway and rendering again, and two scenarios in development mode reading the shared text-file cache (text files produced from the generator's literals, old mtimes, cache reset per execution through an overlay-added accessor). runtime/bufferpool.go, runtime/watchmode.go and the root package's pool/mutex files are bound to vsched by import rewriting, sync.Pool.Get reuse-vs-fresh is an explorer choice. Every schedule with at most 3/4 deviations: each goroutine's bytes and error equal the same render executed alone. The same render bodies also run free (8 goroutines x 1500 renders, normal and dev mode) in a -race build without rewritten files; any detector report or mismatch fails the check.",
             "The race pass is dynamic detection, not exploration; atomic steps between synchronisation operations; state-key completeness as in C19.",
             "4.14", "vsched"),
+    "C15": ("model_checking",
+            "exhaustive tree x flag x worker-count enumeration on the real generatecmd.Run (each run twice, in crash-isolating worker processes) + stateless schedule exploration (vsched) of concurrent HandleEvent calls and of the whole Run rewritten onto vsched",
+            "Configurations: every tree of up to 2 entries over 9 entry kinds (two valid templ files, an unparseable one, one whose generated code is not valid Go, an orphaned _templ.go, an up-to-date and a stale generated file, another .go file, a text file) x 7 directories (root, a, a/b, vendor, node_modules, dot- and underscore-prefixed), triples around generated-file interactions (thorough: every triple over 4 directories), x 8 flag sets (keep-orphaned x lazy x include-version) with 2 workers and worker counts 1 and 4; expected tree computed file by file with the public parser+generator+gofmt; exit status = some file failed; nothing else touched; same result for every worker count; a second run changes no content. Schedules: cmd.go, eventhandler.go and the watcher package are AST-rewritten at check time; 2-3 concurrent HandleEvent calls with a yielding file writer (incl. the same file twice, an unparseable file) and the whole Run (walk, event channel, semaphore, wait groups, post-generation timer in virtual time) with 1-2 workers over 2-3 files incl. an orphan and an unparseable file: every schedule with at most 2 deviations (multi-worker Run scenarios: 1 in the quick tier): no panic, no deadlock, Run returns, exact exit status, exactly the expected generated files.",
+            "fsnotify watch loop not exercised; -lazy is mtime based by design; Run-level executions touch the disk, state key = threads + shim objects + generated files present.",
+            "4.15", "vsched+enum"),
     "C16": ("model_checking",
             "explicit-state BFS to closure over (last compiled, current) template pairs with every transition decided by the real FSEventHandler, every lagging state confirmed by executing old code with new text; plus dev-vs-normal byte comparison on compiled literal-heavy templates",
             "Part 1: every static-text token (both quotes, backslash, backtick, controls, CR, non-ASCII, emoji, format verbs, braces, literal backslash-n; thorough: pairs) in 6 static positions (text, constant attributes, HTML comment, style and script raw text, multi-line pre) is compiled once and rendered with TEMPL_DEV_MODE unset and =true for 2 valuations; the text files are written by the real FSEventHandler in development mode; bytes must be equal. Part 2: a product space of templates (element x dynamic attribute name incl. title/class/style/href/onclick x static text x position of a second expression: text / attribute / script / none (thorough adds comment, action, hx-on:, form/span, spacing) x order); the decision of every single-parameter edit is taken by the real handler (GoUpdated), its independence of older history is validated on two-edit histories, and a breadth-first search runs to closure over (last compiled, current) states, i.e. edit sequences of any length. Every reachable state in which the compiled version lags is executed: the compiled old version reading the text file the handler wrote for the current version must render exactly what the current version renders in normal mode (values with HTML/JS metacharacters).",
